@@ -444,7 +444,9 @@ def kiss_build(c):
         kern = K.GridInterpolationKernel(base, grid_size=list(c["sizes"]), num_dims=c["d"])
     else:
         kern = K.GridInterpolationKernel(base, grid_size=list(c["sizes"]), grid_bounds=[tuple(b) for b in c["bounds"]])
-    return base, kern, X1, X2
+    # GridInterpolationKernel creates its grid buffers with create_grid's default dtype (float32) whatever the
+    # default dtype is; .double() is the documented way to run a model in float64
+    return base, kern.double(), X1, X2
 
 
 def kuu_product(base, grid):
@@ -472,8 +474,8 @@ def check_kiss(out, cases, verbose=False):
         grids.append([g.tolist() for g in grid])
         X1s.append(X1.tolist())
         X2s.append(X2.tolist())
-    m1 = model_interp(grids, X1s)
-    m2 = model_interp(grids, X2s)
+    mboth = model_interp(grids + grids, X1s + X2s)
+    m1, m2 = mboth[:len(grids)], mboth[len(grids):]
     for c, (base, grid, dense, err), a, b in zip(cases, impl, m1, m2):
         d, G = c["d"], int(np.prod(c["sizes"]))
         asym = d >= 2 and (len(set(c["sizes"])) > 1 or len(set(c["ls"])) > 1 or len({tuple(x) for x in c["bounds"]}) > 1)
@@ -487,14 +489,18 @@ def check_kiss(out, cases, verbose=False):
         KUU = kuu_product(base, grid)
         want = dense_W(a, G, "colmajor") @ KUU @ dense_W(b, G, "colmajor").T
         dd = maxdiff(dense, want)
+        # The grid buffers are created in float32 (create_grid's default dtype), so the nodes are equispaced only up
+        # to ~1e-7 and the Toeplitz first row reproduces the Gram matrix of the actual nodes only to that accuracy
+        # (measured 8e-8); without Toeplitz the factors are evaluated on the actual nodes and the dense tolerance holds
+        tol = TOL_ITER if c["toeplitz"] else TOL_DENSE
         if verbose:
             print("impl  kernel:", dense.tolist())
             print("model W1 K_UU W2^T:", want.tolist())
-        if dd <= TOL_DENSE:
+        if dd <= tol:
             continue
         # diagnosis: lexicographic flat indices used on the column-major ordered K_{d-1} kron ... kron K_0
         alt = dense_W(a, G, "lex") @ KUU @ dense_W(b, G, "lex").T
-        if maxdiff(dense, alt) <= TOL_DENSE:
+        if maxdiff(dense, alt) <= tol:
             out.fail("kiss-kernel:index-order:lex-index-into-colmajor-kron",
                      "KISS-GP kernel = W K_UU W^T only if the lexicographic interpolation indices are read in "
                      "GridKernel's column-major Kronecker order (dimensions mixed up; max diff %.3g)" % dd, c,
@@ -518,7 +524,7 @@ STRAT_FLAGS = {
 
 def gen_strategy(rng, tier):
     cases = []
-    per = 5 if tier == "quick" else 40
+    per = 4 if tier == "quick" else 40
     nmax = 5 if tier == "quick" else 6
     for model in ("kiss", "wiski", "sgpr", "rff"):
         for j in range(per):
@@ -559,7 +565,7 @@ def strat_build(c):
     base = None
     if c["model"] in ("kiss", "wiski"):
         inner = K.GridInterpolationKernel(base_kernel("rbf", d, ls), grid_size=list(c["sizes"]),
-                                          grid_bounds=[(-0.1, 1.1)] * d)
+                                          grid_bounds=[(-0.1, 1.1)] * d).double()
     elif c["model"] == "sgpr":
         base = base_kernel("rbf", d, ls)
         if c["scale"]:
@@ -682,12 +688,14 @@ def check_strategy(out, cases, verbose=False):
 
 def gen_sgpr(rng, tier):
     cases = []
-    for j in range(8 if tier == "quick" else 60):
+    # exact rational arithmetic through two nested inverses is expensive (n = m = 4: ~60 s of CPU per case)
+    for j in range(5 if tier == "quick" else 32):
         d = rng.randint(1, 2)
-        n, t = rng.randint(2, 5), rng.randint(1, 3)
+        n, t = rng.randint(2, 3 if tier == "quick" else 4), rng.randint(1, 2)
         pts = separated(rng, n + t, d, 0.0, 1.0, sep=0.06)
         cases.append(dict(family="sgpr", d=d, n=n, t=t, X=pts[:n], Xs=pts[n:], y=[dy(rng, -2, 2, 8) for _ in range(n)],
-                          Z=separated(rng, rng.randint(2, 5), d, 0.0, 1.0, sep=0.1), hseed=rng.randint(0, 10 ** 9),
+                          Z=separated(rng, rng.randint(2, 3 if tier == "quick" else 5), d, 0.0, 1.0, sep=0.2),
+                          hseed=rng.randint(0, 10 ** 9),
                           mean=rng.choice(["zero", "constant"]), scale=rng.random() < 0.6, model="sgpr",
                           flags=["no_sgpr_correction"] + (["cg"] if j % 4 == 3 else [])))
     return cases
@@ -771,7 +779,7 @@ def check_converge(out, cases, verbose=False):
         with torch.no_grad():
             want = base(X, X).to_dense()
             for g in c["sizes"]:
-                kern = K.GridInterpolationKernel(base, grid_size=g, grid_bounds=[(0.0, 1.0)] * c["d"])
+                kern = K.GridInterpolationKernel(base, grid_size=g, grid_bounds=[(0.0, 1.0)] * c["d"]).double()
                 errs.append((kern(X, X).to_dense() - want).abs().max().item())
         out.case(dict(family="converge", d=c["d"], ls=c["ls"], n=len(c["X"])), True, label="converge:d=%d" % c["d"])
         if verbose:
@@ -801,10 +809,15 @@ def run(out, ctx):
                 "asymmetric grid")
     out.extra["tolerances"] = {"explicit formulas": 1e-9, "dense/cholesky": TOL_DENSE,
                                "cg / lanczos / fast_pred_samples root / WISKI (jittered Cholesky of a rank-deficient "
-                               "cache)": TOL_ITER}
+                               "cache) / KISS-GP kernel with use_toeplitz on (float32-created grid buffers)": TOL_ITER}
+    import time
+    timing = {}
     for name, (gen, chk) in FAMILIES.items():
         rng = random.Random(seed * 7919 + sum(map(ord, name)))
+        t0 = time.time()
         chk(out, gen(rng, tier))
+        timing[name] = round(time.time() - t0, 1)
+    out.extra["family_wall_s"] = timing
     out.tested_not_proved = [
         "the KISS-GP kernel converges to the base kernel as the grid is refined (decreasing error sequence only)",
         "WISKI fantasy_mean_cache / fantasy_covar_cache (Cholesky root of W^T D^-1 W) vs conditioning from scratch",
